@@ -14,6 +14,13 @@ def run(c, replay):
                       "a non-returning run is classified by the per-thread stage markers of the hooks; known findings are matched on that signature"]
     nprogs = 10 if c.tier == "quick" else 150
     progs, runs = C.campaign(c, ctx, r, nprogs, 0, c.tier, extra_cfgs=[(4, 2, 0), (8, 1, 0)] if c.tier == "thorough" else [(3, 2, 0)])
+    # ---- several ranks: the shutdown handshake crosses MPI (termination broadcast, node barrier, flushing rounds); legal preemptions
+    # are injected so that ranks and threads reach the shutdown at different moments
+    mr_delays = [None, "10,-1,3000,1,1;1,1,20000,1,0", "10,-1,2000,2,0;1,0,20000,1,1", "1,1,30000,1,-1", "10,-1,5000,1,1", "11,-1,4000,1,0;1,1,10000,1,0",
+                 "10,-1,3000,1,1;1,0,20000,1,0"]
+    progs2, runs2 = C.campaign(c, ctx, r, 6 if c.tier == "quick" else 60, 0, c.tier, ranks_list=(2, 3), delays=mr_delays, long_every=0,
+                               only_cfgs=[(2, 2, 300), (3, 1, 1000), (2, 0, 5000)], use_corpus=False, watchdog=20)
+    runs = runs + runs2
     ok, hangs, byvar = 0, {}, {}
     for run_ in runs:
         res, pr = run_["res"], run_["prog"]
@@ -47,5 +54,6 @@ def run(c, replay):
     C.finish(c, ctx)
     c.cov.update(evaluations=len(runs), distinct_nontrivial=ok, runs_returned=ok, hang_signatures=hangs, by_variant=byvar,
                  rule="interpreter programs ended by predicate, termination time or RootsimStop from a handler x thread counts 1..16 (more threads than "
+                      "LPs included; plus 2 and 3 MPI ranks x 2-3 threads with injected preemptions around the shutdown barrier and the main loop) (more threads than "
                       "LPs included) x GVT periods down to 0; every run must return with one LP_FINI per LP; non-trivial = returning run",
                  traces_validated_against_impl=len(runs), samples=[C.describe(runs[0])])
